@@ -142,11 +142,11 @@ Definition agree (p : pclass) (o : obs) : bool :=
   end.
 
 (* c_fsize: size of the file as written by Set (before the corruption) *)
-Record case := mkCase { c_id : nat; c_clen : N; c_fsize : N; c_kind : corruption; c_obs : obs }.
+Record case := mkCase { c_id : N; c_clen : N; c_fsize : N; c_kind : corruption; c_obs : obs }.
 
 Definition case_ok (c : case) : bool :=
   (c_fsize c =? file_size (c_clen c)) && (s_len (intact (c_clen c)) =? c_fsize c)
   && agree (predict (c_clen c) (c_kind c)) (c_obs c).
 
-Definition mismatches (cs : list case) : list nat :=
+Definition mismatches (cs : list case) : list N :=
   map c_id (filter (fun c => negb (case_ok c)) cs).
